@@ -12,6 +12,9 @@ UTF-8 bytes, the empty string is `-`):
   str  <info>                             → hex of UTF-8(verStringCode info)              (debugging aid)
   caps <node> <querynode> <cat> <type> <name> B<n> feat{n} E<k> ext{k} <form>
                                           → <advertised ver>|<ver of the answered info set, or not-found>
+  config <node> <cat> <type> <name> B<n> feat{n} E<k> ext{k} <form>     (stateful: the configuration from now on) → ok
+  publish (fresh|derived)                 → ver of the emitted presence
+  query <node>                            → ver of the answered info set, or not-found
   info := I<n> (cat type lang name){n} F<m> feat{m} <form>
   form := X- | X<k> (key kind <c> value{c}){k}         kind := t (QString) | l (QStringList) | b (bool: 31 / 30)
   ext  := F<m> feat{m} I<n> (cat type lang name){n}
@@ -123,13 +126,7 @@ def pExt : P (List Str × List Identity) := fun ts =>
   | none => none
   | some (ids, ts) => some ((fs, ids), ts)
 
-def pCaps : P (ClientCfg × Str) := fun ts =>
-  match pStr ts with
-  | none => none
-  | some (node, ts) =>
-  match pStr ts with
-  | none => none
-  | some (q, ts) =>
+def pCfg (node : Str) : P ClientCfg := fun ts =>
   match pStr ts with
   | none => none
   | some (cat, ts) =>
@@ -151,17 +148,53 @@ def pCaps : P (ClientCfg × Str) := fun ts =>
   match pForm ts with
   | none => none
   | some (form, ts) =>
-    some (({ category := cat, type := type, name := name, baseFeatures := base,
-             extFeatures := exts.map (·.1), extIdentities := exts.map (·.2),
-             infoForm := form, node := node }, q), ts)
+    some ({ category := cat, type := type, name := name, baseFeatures := base,
+            extFeatures := exts.map (·.1), extIdentities := exts.map (·.2),
+            infoForm := form, node := node }, ts)
+
+def pCaps : P (ClientCfg × Str) := fun ts =>
+  match pStr ts with
+  | none => none
+  | some (node, ts) =>
+  match pStr ts with
+  | none => none
+  | some (q, ts) =>
+  match pCfg node ts with
+  | none => none
+  | some (c, ts) => some ((c, q), ts)
+
+def pConfig : P ClientCfg := fun ts =>
+  match pStr ts with
+  | none => none
+  | some (node, ts) => pCfg node ts
+
+def showOuts (outs : List (ClientOut String)) : String :=
+  match outs with
+  | [.presence v] => v
+  | [.answer (some v)] => v
+  | [.answer none] => "not-found"
+  | _ => "-"
 
 def strHex (s : Str) : String :=
   let bs := Qx.Utf8.encode (cps s)
   if bs.isEmpty then "-" else toHex bs
 
-def stepLine (s : Unit) (line : String) : Unit × String :=
+def stepLine (s : ClientSt String) (line : String) : ClientSt String × String :=
   match words line with
-  | ["reset"] => (s, "ok")
+  | ["reset"] => ({ cfg := emptyCfg }, "ok")
+  | "config" :: ts =>
+    match pConfig ts with
+    | some (c, []) => ((clientStep sha1b64 s (.configure c)).1, "ok")
+    | _ => (s, "bad-op")
+  | ["publish", how] =>
+    if how = "fresh" ∨ how = "derived" then
+      let r := clientStep sha1b64 s (.publish (how = "derived"))
+      (r.1, showOuts r.2)
+    else (s, "bad-op")
+  | ["query", n] =>
+    match pStr [n] with
+    | some (node, []) => let r := clientStep sha1b64 s (.query node); (r.1, showOuts r.2)
+    | _ => (s, "bad-op")
   | "ver" :: ts =>
     match pInfo ts with
     | some (i, []) => (s, ver sha1b64 i)
@@ -184,4 +217,4 @@ def stepLine (s : Unit) (line : String) : Unit × String :=
     | _ => (s, "bad-op")
   | _ => (s, "bad-op")
 
-def main : IO Unit := run () stepLine
+def main : IO Unit := run { cfg := emptyCfg } stepLine
